@@ -61,6 +61,8 @@ ALL_FEATURES = [
     # --- rung 3 ---
     "typed_user_globals",   # globals annotated with user-defined types:  p : T : comptime {..}
     "global_readers",       # globals that read other aggregate globals:  r :: comptime { p.a }
+    "local_comptime_calls", # comptime blocks *inside recursive functions*, after the recursive call,
+                            # that call other functions: as a constant, an array size, a type
     "struct_cast",          # a second struct with the same member names (other order, other int
                             # widths) and a function that casts one into the other:  S2.(s)
 ]
@@ -634,7 +636,33 @@ class _Gen:
         it = Item(name, "fn")
         it.is_function = True
         r = self.rnd
-        if "recursion" in self.f and r.random() < 0.35:
+        if ("local_comptime_calls" in self.f and "recursion" in self.f and self.int_fns
+                and r.random() < 0.3):
+            it.recursive = True
+            base = self.lit(1, 9)
+            others = [f for f in self.int_fns if self.p.by_name[f].recursive] or self.int_fns
+            other = r.choice(others)
+            it.deps.add(other)
+            a1, a2, a3 = self.lit(0, 5), self.lit(0, 5), self.lit(0, 5)
+            shape = r.sample(["const", "size", "type"], r.randint(1, 3))
+
+            def render(ref, name=name, base=base, other=other, shape=tuple(shape)):
+                body = ["rest := %s(a - 1);" % name]
+                terms = ["rest"]
+                if "const" in shape:
+                    body.append("k :: comptime { %s(%s) };" % (ref(other), a1))
+                    terms.append("k")
+                if "size" in shape:
+                    body.append("buf : [comptime { usize.((%s(%s) %% 4 + 4) %% 4 + 1) }]i64;" % (ref(other), a2))
+                    terms.append("i64.(buf.len)")
+                if "type" in shape:
+                    body.append("x : comptime { if %s(%s) > 5 { i64 } else { i32 } } = 7;" % (ref(other), a3))
+                    terms.append("i64.(x)")
+                return ("%s :: (a: i64) -> i64 {\n    if a <= 0 { %s } else {\n%s        (%s) %% 997\n    }\n}"
+                        % (name, base, "".join("        %s\n" % b for b in body), " + ".join(terms)))
+
+            it.render = render
+        elif "recursion" in self.f and r.random() < 0.35:
             it.recursive = True
             base = self.lit(1, 9)
             step = self.iexpr(it, "a", depth=1)
